@@ -450,9 +450,11 @@ def r3_periodic(ctx):
     cfg = CFG(f)
     dom = cfg.dominators()
     helpers = ("_displacement_orthogonal_box", "_displacement_triclinic_box")
-    wrap = [n for n in cfg.nodes if n.kind == "stmt" and isinstance(n.ast, ast.Assign)
-            and isinstance(n.ast.value, ast.BinOp) and isinstance(n.ast.value.op, ast.Mod)
-            and ast.unparse(n.ast.value) == "fractions % 1" and ast.unparse(n.ast.targets[0]) == "fractions"]
+    wrap = [n for n in cfg.nodes if n.kind == "stmt" and (
+        (isinstance(n.ast, ast.Assign) and isinstance(n.ast.value, ast.BinOp) and isinstance(n.ast.value.op, ast.Mod)
+         and ast.unparse(n.ast.value) == "fractions % 1" and ast.unparse(n.ast.targets[0]) == "fractions")
+        or (isinstance(n.ast, ast.AugAssign) and isinstance(n.ast.op, ast.Mod) and ast.unparse(n.ast.target) == "fractions"
+            and ast.unparse(n.ast.value) == "1"))]
     tofrac = [n for n in cfg.nodes if n.kind == "stmt" and isinstance(n.ast, ast.Assign)
               and isinstance(n.ast.value, ast.Call) and call_name(n.ast.value) == "coord_to_fraction"
               and ast.unparse(n.ast.value.args[0]) == "diff" and ast.unparse(n.ast.value.args[1]) == "box"]
